@@ -322,7 +322,7 @@ std::vector<double> Log_Space(double min, double max, unsigned int steps)
 	{
 		std::vector<double> result;
 		double logmin = log(min);
-		double dlog	  = log(max / min) / (steps - 1.0);
+		double dlog	  = (log(max) - logmin) / (steps - 1.0);
 		for(unsigned int i = 0; i < steps; i++)
 			result.push_back(exp(logmin + i * dlog));
 		return result;
